@@ -2,7 +2,9 @@
 (* C20 monitor over traces of the real scheduler (times in milliseconds of a  *)
 (* monotonic clock, events totally ordered by the recorder).                  *)
 (*                                                                            *)
-(*  Sched  a(owner) r(ref) x(receiver) k(once|loop) d(ms) m(token)            *)
+(*  Sched  a(owner) r(ref) x(receiver) k(once|loop|cron) d(ms; for cron the   *)
+(*         period of the expression, firings are aligned to the wall clock)   *)
+(*         m(token)                                                           *)
 (*         tb(time before the call) t(time after it returned)                 *)
 (*  Stop   a r("*" = all of a) s(cancel|clear|down|restart)                   *)
 (*         tb(time the stop was requested) t(time it had taken effect)        *)
@@ -67,7 +69,8 @@ OnFire ==
     /\ IF ~Known THEN bad' = Flag("FireOfUnknownJob") /\ UNCHANGED jobs
        ELSE /\ jobs' = [jobs EXCEPT ![Ev.m].fires = @ + 1, ![Ev.m].lastFire = Ev.t]
             /\ bad' = IF J.stop # -1 /\ Ev.t > J.stop + Grace THEN Flag("NoFiringAfter." \o J.why)
-                      ELSE IF Ev.t < J.tb + (J.fires + 1) * J.d THEN Flag("NotBeforeItsInstant")
+                      ELSE IF J.kind # "cron" /\ Ev.t < J.tb + (J.fires + 1) * J.d THEN Flag("NotBeforeItsInstant")
+                      ELSE IF J.kind = "cron" /\ (Ev.t < J.tb \/ Ev.t < J.tb + J.fires * J.d - Slack) THEN Flag("CronNotFasterThanItsPeriod")
                       ELSE IF J.kind = "once" /\ J.fires >= 1 THEN Flag("OnceFiresOnce")
                       ELSE bad
     /\ UNCHANGED <<cur, down>>
@@ -77,7 +80,7 @@ OnDeliv ==
     /\ IF ~Known THEN bad' = Flag("DeliveryOfUnknownJob") /\ UNCHANGED jobs
        ELSE /\ jobs' = [jobs EXCEPT ![Ev.m].got = @ + 1]
             /\ bad' = IF J.stop # -1 /\ Ev.t > J.stop + DelivGrace THEN Flag("NoDeliveryAfter." \o J.why)
-                      ELSE IF Ev.t < J.tb + (J.got + J.dl + 1) * J.d THEN Flag("NotBeforeItsInstant")
+                      ELSE IF J.kind # "cron" /\ Ev.t < J.tb + (J.got + J.dl + 1) * J.d THEN Flag("NotBeforeItsInstant")
                       ELSE IF J.kind = "once" /\ J.got + J.dl >= 1 THEN Flag("OnceDeliversOnce")
                       ELSE IF Ev.a # J.recv THEN Flag("DeliveredToTheReceiver")
                       ELSE IF Ev.v # 1 THEN Flag("OriginalValue")
@@ -102,14 +105,17 @@ OnRecvDown ==
 (* lower bounds at the end of a healthy run: what was due while the job was alive has arrived       *)
 Until(j, tEnd) == IF j.stopReq # -1 THEN j.stopReq ELSE tEnd
 Expected(j, tEnd) == LET span == Until(j, tEnd) - Slack - j.ta IN
-                     IF span < j.d THEN 0 ELSE IF j.kind = "once" THEN 1 ELSE span \div j.d
+                     IF span < j.d THEN 0 ELSE IF j.kind = "once" THEN 1
+                     ELSE IF j.kind = "cron" THEN (span \div j.d) - 1      \* aligned to the wall clock: the first period may be partial
+                     ELSE span \div j.d
 Arrived(j) == j.got + j.dl
 OnEnd ==
     /\ Ev.e = "End"
     /\ LET missing == {m \in DOMAIN jobs : Arrived(jobs[m]) < Expected(jobs[m], Ev.t)}
            lost == {m \in DOMAIN jobs : jobs[m].fires > Arrived(jobs[m]) /\ jobs[m].lastFire + DelivGrace < Ev.t}
        IN bad' = IF Ev.v = 1 /\ missing # {} THEN
-                     Flag(IF \E m \in missing : jobs[m].kind = "once" THEN "OnceDelivers" ELSE "LoopDeliversEveryInterval")
+                     Flag(IF \E m \in missing : jobs[m].kind = "once" THEN "OnceDelivers"
+                          ELSE IF \E m \in missing : jobs[m].kind = "cron" THEN "CronDeliversEveryPeriod" ELSE "LoopDeliversEveryInterval")
                  ELSE IF lost # {} THEN Flag("FiringReachesMailboxOrDeadLetters")
                  ELSE bad
     /\ UNCHANGED <<jobs, cur, down>>
